@@ -6,7 +6,11 @@
      through console.log) on boundary-biased operands, also compared with the regenerated Lean definitions;
  (3) metamorphic twins on the real compiler/scanner (h_scan): literal <-> constant expression <-> external
      (also redefined after compilation at rules and scanner level), forced evaluation, fast mode, atom
-     quality tables: verdicts and compile success must agree.
+     quality tables: verdicts and compile success must agree.  Dedicated twin families: wide / fullword regexps and hex strings
+     under quality tables that rate the string's own atoms 0 (no atom indexed) on buffers where byte-wise and 16-bit word
+     boundaries disagree; one-element / empty ranges (lo == hi, hi = lo +- 1) in every range position as literal, constant
+     expression and external (a constant range lo <= hi must compile like its external form); rule sets with a global rule
+     that needs its own string, first / later / last, in the default and in a second namespace, plain vs forced.
 """
 import binascii
 from vf import core
@@ -262,6 +266,170 @@ def gen_chain_group(r, gid):
     return out, dict(template="chain:" + layout, values=[lo, hi, good], strings=[sa], buf=hx(bytes(buf)))
 
 
+# ---- atom-less strings: wide / fullword regexps and hex strings whose atoms a quality table rates 0
+
+WIDE_STRINGS = [  # (declaration without modifiers, is regexp, instances)
+    ("/abc[0-9]/", True, [b"abc1", b"abc7"]), ("/ab[cd]e/", True, [b"abce", b"abde"]), ("/fo+b/", True, [b"foob", b"fob"]),
+    ("/x[0-9]{2}y/", True, [b"x42y"]), ("/[a-z]+[0-9]/", True, [b"abc1", b"q7"]), ("/ab.d/", True, [b"abXd", b"ab1d"]),
+    ("{ 61 62 63 ?? }", False, [b"abc1", b"abcZ"]), ("{ 61 62 [1-2] 63 64 }", False, [b"abXcd", b"ab12cd"]), ("{ 71 ?? 73 74 }", False, [b"q_st"]),
+]
+WIDE_MODS = ["wide fullword", "wide fullword", "wide", "fullword", "ascii wide fullword", "wide nocase fullword", "wide fullword private"]
+
+
+def wide(b):
+    return b"".join(bytes([c, 0]) for c in b)
+
+
+def zero_tables(r, insts):
+    """quality tables that rate the atoms of the string (every window of its instances, ascii and wide) 0: the compiler then
+    indexes NO atom for it (zero-length atom, candidates without backward code)"""
+    wins = set()
+    for m in insts:
+        for src in (m, wide(m)):
+            for i in range(len(src)):
+                wins.add((src[i:i + 4] + b"\0\0\0\0")[:4])
+    allz = sorted(wins)
+    tables = [b"".join(w + b"\0" for w in allz)]
+    first = (insts[0][:3] + b"\0\0\0\0")[:4]
+    tables.append(first + b"\0")                                      # the one-entry table "abc\0" -> 0
+    tables.append(b"".join(w + bytes([r.choice([0, 0, 1, 3])]) for w in allz))
+    some = sorted(r.sample(allz, max(1, len(allz) // 2)))
+    tables.append(b"".join(w + b"\0" for w in some))
+    return tables
+
+
+def gen_wide_group(r, gid):
+    """the atom-quality / fast / forced twins on strings whose word boundaries are where byte-wise and 16-bit tests disagree"""
+    decl, is_re, insts = r.choice(WIDE_STRINGS)
+    mods = r.choice(WIDE_MODS) if is_re else ""
+    m = r.choice(insts)
+    W = wide(m) if "wide" in mods else m
+    other = m if "wide" in mods and "ascii" in mods else None
+    layout = r.choice(["alone", "glued-before", "glued-after", "after-ascii-letter", "before-ascii-letter", "spaces", "wide-spaces", "two", "ascii-form",
+                       "after-ascii-digit", "glued-both", "at-start-then-glued"])
+    L = lambda c: wide(c) if "wide" in mods else c
+    if layout == "alone":
+        buf = W
+    elif layout == "glued-before":
+        buf = L(b"x") + W
+    elif layout == "glued-after":
+        buf = W + L(b"x")
+    elif layout == "glued-both":
+        buf = L(b"9") + W + L(b"_")
+    elif layout == "after-ascii-letter":
+        buf = b"Z" + W
+    elif layout == "after-ascii-digit":
+        buf = b"..7" + W + b".."
+    elif layout == "before-ascii-letter":
+        buf = W + b"Zz"
+    elif layout == "spaces":
+        buf = b" " + W + b" "
+    elif layout == "wide-spaces":
+        buf = L(b" ") + W + L(b" ")
+    elif layout == "two":
+        buf = L(b"x") + W + L(b" ") + W + b"."
+    elif layout == "at-start-then-glued":
+        buf = W + L(b" x") + W
+    else:
+        buf = b"-" + (other or m) + b"-" + L(b"y") + W
+    cond = r.choice(["$a", "$a", "#a == 1", "#a >= 2", "$a at 0", "$a at 1", "$a at 2", "any of them", "#a == 0"])
+
+    def rule(c):
+        return "rule t { strings: $a = %s %s condition: %s }" % (decl, mods, c)
+    b = "buf=" + hx(buf)
+    out = [("base", "w%d_base src=%s %s" % (gid, hx(rule(cond)), b)),
+           ("forced", "w%d_forced src=%s %s" % (gid, hx(rule("(%s) or filesize < 0" % cond)), b)),
+           ("fast", "w%d_fast src=%s fast=1 %s" % (gid, hx(rule(cond)), b))]
+    for qi, table in enumerate(zero_tables(r, insts)):
+        out.append(("atomq%d" % qi, "w%d_atomq%d src=%s atomq=%s %s" % (gid, qi, hx(rule(cond)), hx(table), b)))
+        if qi < 2:
+            out.append(("atomq%d_fast" % qi, "w%d_atomq%d_fast src=%s atomq=%s fast=1 %s" % (gid, qi, hx(rule(cond)), hx(table), b)))
+    return out, dict(template="wide:" + layout, values=[], strings=[decl + " " + mods], buf=hx(buf))
+
+
+# ---- one-element and empty ranges in every range position: literal <-> constant expression <-> external
+
+RANGE_TEMPLATES = ["$a in ({0}..{1})", "#a in ({0}..{1}) == 1", "#a in ({0}..{1}) == 0", "any of them in ({0}..{1})", "all of ($a,$b) in ({0}..{1})",
+                   "1 of ($a*) in ({0}..{1})", "none of them in ({0}..{1})", "for any i in ({0}..{1}) : ($a at i)", "for all i in ({0}..{1}) : (i == {0})",
+                   "for 1 i in ({0}..{1}) : (@a[1] == i)", "for any of them : ($ in ({0}..{1}))", "for any i in ({0}..{1}) : (for any j in ({0}..{1}) : (i == j))",
+                   "$a in ({0}..{1}) or $b in ({0}..{1})", "for any i in (0..filesize) : ($a in ({0}..{1}) and i == {0})"]
+
+
+def gen_range_group(r, gid):
+    (sa, pa), (sb, pb) = r.sample(STRINGS[:9], 2)
+    pre = r.randint(0, 9)
+    buf = bytes(r.choice(b"._ ") for _ in range(pre)) + pa + bytes(r.choice(b"._") for _ in range(r.randint(0, 5))) + (pb if r.random() < 0.6 else b"") + b"."
+    lo = r.choice([pre, pre, pre + 1, max(0, pre - 1), 0, 3, len(buf), len(buf) - 1])
+    hi = lo + r.choice([0, 0, 0, 1, -1, 2])
+    if hi < 0:
+        hi = lo
+    tmpl = r.choice(RANGE_TEMPLATES)
+
+    def rule(cond):
+        return "rule t { strings: $a = %s $b = %s condition: %s }" % (sa, sb, cond)
+    b = "buf=" + hx(buf)
+    base_cond = tmpl.format(lit(lo), lit(hi))
+    out = [("base", "r%d_base src=%s %s" % (gid, hx(rule(base_cond)), b)),
+           ("forced", "r%d_forced src=%s %s" % (gid, hx(rule("(%s) or filesize < 0" % base_cond)), b)),
+           ("constexpr", "r%d_constexpr src=%s %s" % (gid, hx(rule(tmpl.format(const_expr(r, lo), const_expr(r, hi)))), b)),
+           ("constexpr_hi", "r%d_constexpr_hi src=%s %s" % (gid, hx(rule(tmpl.format(lit(lo), "(%s + %s)" % (lit(hi - 2), lit(2))))), b)),
+           ("ext", "r%d_ext cext=i:e0:%d cext=i:e1:%d src=%s %s" % (gid, lo, hi, hx(rule(tmpl.format("e0", "e1"))), b)),
+           ("ext_lo", "r%d_ext_lo cext=i:e0:%d src=%s %s" % (gid, lo, hx(rule(tmpl.format("e0", lit(hi)))), b)),
+           ("ext_hi", "r%d_ext_hi cext=i:e1:%d src=%s %s" % (gid, hi, hx(rule(tmpl.format(lit(lo), "e1"))), b)),
+           ("fast", "r%d_fast src=%s fast=1 %s" % (gid, hx(rule(base_cond)), b))]
+    # a range with constant bounds lo <= hi is a valid rule: its literal form must compile exactly like its external form does
+    return out, dict(template="range:" + tmpl, values=[lo, hi], strings=[sa, sb], buf=hx(buf), must_compile=(lo <= hi))
+
+
+# ---- global rules that need their own string, in the first / a later position of the default and of a second namespace
+
+def gen_global_group(r, gid):
+    """plain vs forced evaluation of rule SETS: a global rule whose string is absent is skipped without being evaluated (its
+    namespace is then unsatisfied); the forced form `($g) or filesize < 0` is evaluated — the verdicts of all rules must agree"""
+    gstr, gpat = r.choice([('"GG"', b"GG"), ('{ 47 31 ?? 47 }', b"G1xG"), ('/G[0-9]G/', b"G7G")])
+    def ruleset(ns, force):
+        n_plain = r_counts[ns]
+        pos = g_pos[ns]
+        rules = []
+        for k in range(n_plain + (1 if pos is not None else 0)):
+            if pos is not None and k == pos:
+                cond = "$g" if not force else "($g) or filesize < 0"
+                if g_kind[ns] == 1:
+                    cond = "#g >= 1" if not force else "(#g >= 1) or filesize < 0"
+                rules.append("global rule g%s { strings: $g = %s condition: %s }" % (ns, gstr, cond))
+            else:
+                c = plain_conds[ns][k % len(plain_conds[ns])]
+                rules.append("rule p%s_%d { strings: $x = \"xx\" condition: %s }" % (ns, k, c if not force else "(%s) or filesize < 0" % c))
+        return " ".join(rules)
+    r_counts = {"a": r.choice([1, 2, 3]), "b": r.choice([1, 2])}
+    g_pos = {"a": r.choice([None, 0, 1, r_counts["a"]]), "b": r.choice([None, 0, r_counts["b"], r_counts["b"]])}
+    if g_pos["a"] is None and g_pos["b"] is None:
+        g_pos[r.choice("ab")] = 1
+    g_kind = {"a": r.choice([0, 0, 1]), "b": r.choice([0, 1])}
+    plain_conds = {ns: r.sample(["true", "$x", "not $x", "filesize >= 0", "#x == 0 or $x"], 3) for ns in "ab"}
+    order = r.choice([("a", "b"), ("a", "b"), ("b", "a")])
+    buf = bytes(r.choice(b"._ ") for _ in range(r.randint(0, 6)))
+    if r.random() < 0.5:
+        buf += gpat
+    if r.random() < 0.5:
+        buf += b".xx"
+    buf += b"."
+    two_ns = r.random() < 0.75
+    nsname = {"a": None, "b": "second"} if order[0] == "a" else {"b": None, "a": "second"}
+
+    def line(tag, force, extra=""):
+        st = r.getstate()
+        toks = ["q%d_%s" % (gid, tag)]
+        for ns in (order if two_ns else order[:1]):
+            if nsname[ns]:
+                toks.append("ns=" + nsname[ns])
+            toks.append("src=" + hx(ruleset(ns, force)))
+        r.setstate(st)
+        return " ".join(toks) + " " + extra + "buf=" + hx(buf)
+    out = [("base", line("base", False)), ("forced", line("forced", True)), ("fast", line("fast", False, "fast=1 "))]
+    return out, dict(template="global:%s:%s:%s" % (g_pos, order, two_ns), values=[], strings=[gstr], buf=hx(buf))
+
+
 def verdicts(line):
     t = line.split()
     if len(t) < 2:
@@ -334,6 +502,12 @@ def run(tier, replay=None):
         vs, meta = gen_chain_group(r, g)
         groups.append((vs, meta))
         lines += [l for _, l in vs]
+    for gen, cnt in ((gen_wide_group, 120 if tier == "quick" else 3000), (gen_range_group, 120 if tier == "quick" else 3000),
+                     (gen_global_group, 100 if tier == "quick" else 2500)):
+        for g in range(cnt):
+            vs, meta = gen(r, g)
+            groups.append((vs, meta))
+            lines += [l for _, l in vs]
     if replay and replay.get("engine") == "twin":
         groups = [([(n, l) for n, l in replay["variants"]], replay.get("meta", {}))]
         lines = [l for _, l in groups[0][0]]
@@ -357,7 +531,9 @@ def run(tier, replay=None):
             v = res[n]
             if base[0] == "OK":
                 ok = (v == base)
-            elif n in ("forced", "constexpr", "fast", "atomq0", "atomq1"):    # (fast_ext: externals, compared only when base compiles)
+            elif meta.get("must_compile") and n.startswith("ext") and v[0] == "OK":
+                ok = False          # a valid rule (constant range lo <= hi) rejected at compile time although its external form compiles
+            elif n in ("forced", "constexpr", "constexpr_hi", "fast") or n.startswith("atomq"):    # (fast_ext: externals, compared only when base compiles)
                 ok = (v[0] == base[0] and v[1] == base[1])      # same compile error
             else:
                 ok = True                                       # externals are unknown at compile time: no compile-time rejection expected
@@ -380,5 +556,6 @@ def run(tier, replay=None):
     })
     core.handle_broken_proof(chk, lres, found)
     chk.assumptions += ["signed overflow wraps (two's complement) in the compiled VM and folder", "twins compare rule verdicts, not match lists (flags legitimately prune lists)",
-                        "external-variable variants are compared only when the literal variant compiles"]
+                        "external-variable variants are compared only when the literal variant compiles — except for constant ranges lo <= hi, which must compile",
+                        "word-boundary buffers are built from instances of the regexps / hex strings; the atom-zeroing tables list every <= 4-byte window of them (ascii and wide)"]
     return chk.finish("proof")
